@@ -22,7 +22,9 @@ META = {
                    '(min(TO, year-1), month); _get_anchor_rule interpreted on policies of two and three rules in every order '
                    'with SAVE 0 and SAVE 1:00 rules carrying different letters; BasicZoneProcessor and ExtendedZoneProcessor interpreted in full '
                    '(E-SEQ, typed, acv/rules_C04c.py) on model zones compiled by the interpreted compiler for both scopes (F) and on the shipped '
-                   'tables of every basic zone that changes era, around each such New Year (G): identical offset, DST offset and abbreviation.',
+                   'tables of every basic zone that changes era, around each such New Year (G), and on the shipped tables of the zones both databases '
+                   'hold, around every transition the interpreted reference reports (H: every eighth zone and two years in the quick tier, all 268 '
+                   'zones and five years in the thorough one): identical offset, DST offset and abbreviation.',
     'decided': 'the stated data preconditions of BasicZoneProcessor hold for every shipped basic zone and year; the basic '
                'cache never needs more than kMaxCacheEntries slots; what the compiler emits in basic scope for the feature source meets the '
                'same preconditions (a basic-only filter that is skipped, mis-scoped, weakened or whose result is dropped lets a feature zone through); names(zonedb) is a subset of names(zonedbx) with identical recorded era/rule lines and TZ version; '
@@ -599,6 +601,7 @@ def run(cfg):
     from . import rules_C04c
     rules_C04c.basic_rule(R, cfg, lib, 'F')
     rules_C04c.shipped_boundary_rule(R, cfg, lib, 'G')
+    rules_C04c.shipped_pair_rule(R, cfg, lib, 'H')
     return R
 
 
